@@ -748,6 +748,42 @@ class Inliner(object):
     self._elig = {}
     self._full = {}
 
+  def opaque_calls(self, fi, node=None):
+    """Names of the private, non-anchor helpers of fi's own class / module that fi calls in a way
+    the inlined view cannot fold in (the helper is not inlinable, or the call sits inside an
+    expression): code of this function's own making that the rules cannot see into."""
+    node = fi.node
+    out = []
+    folded = set()
+    for x in ast.walk(node):
+      if isinstance(x, (ast.Expr, ast.Assign, ast.Return)) and \
+          isinstance(getattr(x, "value", None), ast.Call) and \
+          self.helper_of(fi, x.value) is not None:
+        folded.add(id(x.value))
+    for s in node.body:
+      if isinstance(s, (ast.FunctionDef, ast.AsyncFunctionDef, ast.ClassDef)):
+        continue
+      for x in walk_no_nested(s, into_lambda=True):
+        if isinstance(x, ast.Call) and id(x) not in folded:
+          h = self.resolve_helper(fi, x)
+          if h is not None and h.name.startswith("_") and not h.name.startswith("__") and \
+              h.name not in self.anchors and h.name not in out:
+            out.append(h.name)
+    return out
+
+  def resolve_helper(self, fi, call):
+    f = call.func
+    h = None
+    if isinstance(f, ast.Attribute) and isinstance(f.value, ast.Name) and f.value.id == "self":
+      cls = fi.cls if fi.cls is not None else (fi.parent.cls if fi.parent is not None else None)
+      if cls is not None:
+        h = self.repo.find_method(cls, f.attr)
+    elif isinstance(f, ast.Name):
+      h = fi.module.functions.get(f.id)
+    if h is None or h.qualname == fi.qualname or h.module is not fi.module:
+      return None
+    return h
+
   # -- which helper does a call invoke
   def helper_of(self, fi, call):
     f = call.func
@@ -981,6 +1017,7 @@ class _Buffer(object):
   def __init__(self, run):
     self._run = run
     self.calls = []
+    self.missing = set()
     self.failed = 0
     self.tier = getattr(run, "tier", "quick")
     self.repo = getattr(run, "repo", None)
@@ -991,7 +1028,12 @@ class _Buffer(object):
     return rule_id
 
   def ob(self, rule, site, construct, what, ok, **kw):
+    # missing=True: the obligation fails because the mechanism was not found at all (as opposed
+    # to found and seen broken); see decide()
+    missing = bool(kw.pop("missing", False)) and not ok
     self.calls.append(("ob", (rule, site, construct, what, ok), kw))
+    if missing:
+      self.missing.add(len(self.calls) - 1)
     if not ok:
       self.failed += 1
     return bool(ok)
@@ -1012,6 +1054,18 @@ class _Buffer(object):
 
   def assume(self, msg):
     self.calls.append(("assume", (msg,), {}))
+
+  def under_floor(self):
+    """A rule declared here with a floor saw fewer instances than were confirmed by hand: the
+    mechanism moved somewhere this view does not show."""
+    counts = {}
+    for kind, a, kw in self.calls:
+      if kind == "ob":
+        counts[a[0]] = counts.get(a[0], 0) + 1
+    for kind, a, kw in self.calls:
+      if kind == "rule" and a[2] is not None and counts.get(a[0], 0) < a[2]:
+        return True
+    return False
 
   def commit(self):
     for kind, a, kw in self.calls:
@@ -1035,7 +1089,7 @@ def decide(run, repo, rule_functions, anchors, world=None, more_anchors=None):
       f(buf, w)
     except AnalysisError as e:
       err = e
-    if err is None and not buf.failed:
+    if err is None and not buf.failed and not buf.under_floor():
       buf.commit()
       continue
     if state["iw"] is None:
@@ -1055,14 +1109,39 @@ def decide(run, repo, rule_functions, anchors, world=None, more_anchors=None):
     except Exception:
       # the second opinion is best effort: whatever goes wrong there, the plain verdict stands
       ok2 = False
-    if ok2 and not buf2.failed and state["iw"].inlined_functions:
+    if ok2 and not buf2.failed and not buf2.under_floor() and state["iw"].inlined_functions:
       buf2.commit()
       continue
+    # An obligation that fails because its mechanism was *not found* (missing=True) is reported as
+    # a violation only where the rule could see all the code involved: if the function it is about
+    # calls private helpers that could not be folded in (not inlinable, or called inside an
+    # expression), what the rule misses may be in there -- "cannot decide", not "broken".
+    # Obligations that found the mechanism and saw it broken are always violations.
+    iw = state["iw"]
+    undecided = []
+    kept = []
+    for idx, call in enumerate(buf.calls):
+      kind, a, kw = call
+      if kind == "ob" and not a[4] and idx in buf.missing:
+        fi_ = repo.funcs.get(a[1])
+        if fi_ is not None:
+          try:
+            opaque = iw.inliner.opaque_calls(fi_, iw.fn_of(fi_).node)
+          except Exception:
+            opaque = []
+          if opaque:
+            undecided.append("%s: `%s` undecided: the function calls %s, which the rule cannot "
+                             "see into" % (a[1], a[2][:80], ", ".join(opaque[:3])))
+            continue
+      kept.append(call)
+    buf.calls = kept
     # keep what the rule reported (before it gave up, if it did); a rule that cannot decide is
     # recorded like Run.guard does, so the other rules still report
     buf.commit()
     if err is not None:
       run.errors.append((getattr(f, "__name__", "?"), str(err)))
+    for msg in undecided[:3]:
+      run.errors.append((getattr(f, "__name__", "?"), msg))
 
 
 # ------------------------------------------------------------------------------------------
@@ -1107,6 +1186,8 @@ def nodes_calling_E(fn, pred, cfg=None):
 def _own_calls(fnode):
   out = []
   for s in fnode.body:
+    if isinstance(s, (ast.FunctionDef, ast.AsyncFunctionDef, ast.ClassDef)):
+      continue
     for x in walk_no_nested(s, into_lambda=True):
       if isinstance(x, ast.Call):
         out.append(x)
